@@ -111,6 +111,15 @@ CLAIMED = {
             "restored with the real loader and classified by deep comparison.",
             "Trusted: Lean kernel; strace injection; process-death crash model (no write reordering); SQLite's journal; h5py behaviour on half-updated files recorded not modelled. Partial: JSON back-end hybrids are known findings.",
             "DESIGN.md §4 C06"),
+    "C10": ("Lean 4 proof (inductive invariant of a two-thread transition system over ALL choice sequences = all scripts, failures, agents and interleavings; deadlock freedom; confluence via a diamond lemma => schedule independence) + forced-schedule execution of the real threads replayed move by move on the model",
+            "Proved in Lean at synchronisation-point granularity, for every script of sessions/batches, every failure point, every agent and every interleaving: "
+            "the learn calls (batch, sampler) are exactly the completed agent-chosen batches, lagging by at most the one outcome in flight — so each chosen batch is learned "
+            "once, from its own outcome, attributed to the sampler that ran, and nothing unexecuted is learned; at session end both queues are empty and no thread is alive; "
+            "both threads are never blocked together and a waiting calibration thread implies the agent can move; for a scripted system with any deterministic agent every "
+            "complete execution reaches the same final state (diamond + strip lemmas), and terminal states are finished ones. Tied to rl_scheduler.py/envs/base.py by running "
+            "the real threads under a controller (random, biased, alternating and exhaustive schedules) and replaying each event trace on the model.",
+            "Trusted: Lean kernel; atomicity and FIFO of queue.Queue, atomic attribute access, Thread.start/join (CPython); fused local steps; harness/vp/rlsched.py.",
+            "DESIGN.md §4 C10"),
 }
 NOT_YET = {}
 
